@@ -59,19 +59,21 @@ def r6(R6, cfg, F):
         R6.bad(cfg, c.body.path, 'asks-the-entry-not-the-path:' + c.callee.name, '`%s` does not follow symbolic links, while reading an entry does: a linked file or directory would be readable but never listed' % c.callee.best, c.loc())
     if not bad:
         R6.ok(cfg, 'source::filesystem', 'no-link-blind-classification', b.loc())
-    # the two arms
-    fcalls = [c for c in b.calls() if user_call_kind(c) == 'indirect']
+    # the two kinds of entries: wherever read_dir (or a helper written in place) builds one, it is under the right test
     isf = [c for c in b.calls() if c.callee and c.callee.best == 'std::path::Path::is_file']
     isd = [c for c in b.calls() if c.callee and c.callee.best == 'std::path::Path::is_dir']
-    ok = len(isf) == 1 and len(isd) == 1 and len(fcalls) == 2
+    fcalls = [c for c in b.calls() if user_call_kind(c) == 'indirect']
+    ags = [(bb, st) for bb, _, st in b.assigns() if st['rv']['k'] == 'aggregate' and st['rv'].get('adt') == 'source::DirEntry' and not b.blocks[bb]['cleanup']]
+    ok = len(isf) == 1 and len(isd) == 1 and bool(fcalls)
     if ok:
-        got = {}
-        for c in fcalls:
-            tg = [(x.callee.name, t) for x, t in common.call_truth_guards(b, c.bb) if x in (isf[0], isd[0])]
-            ags = [st for st in agg_stmts(b, c.args[1])] if len(c.args) > 1 else []
-            kinds = {st['rv'].get('variant_name') for st in ags if st['rv'].get('adt') == 'source::DirEntry'}
-            got[tuple(sorted(kinds))] = sorted(tg)
-        ok = got.get(('File',)) is not None and ('is_file', True) in got[('File',)] and got.get(('Directory',)) is not None and ('is_dir', True) in got[('Directory',)]
+        # (the entry built for path_of(Directory(id)) before the listing starts is not a reported entry)
+        ags = [(bb, st) for bb, st in ags if b.dominates(isf[0].bb, bb) and bb != isf[0].bb]
+        ok = {st['rv'].get('variant_name') for _, st in ags} == {'File', 'Directory'}
+    if ok:
+        for bb, st in ags:
+            want = isf[0] if st['rv'].get('variant_name') == 'File' else isd[0]
+            if not any(x is want and t for x, t in common.call_truth_guards(b, bb)):
+                ok = False
     R6.check(ok, cfg, b.path, 'File-iff-is_file;Directory-iff-is_dir', 'read_dir must report DirEntry::File for entries whose path is_file() and DirEntry::Directory for those whose path is_dir() (link-following tests)', b.loc())
 
 
